@@ -249,9 +249,9 @@ PROP = {
           native={"fn": "Glue::checked_mul", "args": ["g.width.0", "g.stretch.0", "g.stretch_order", "g.shrink.0", "g.shrink_order", "n"]},
           smt_timeout=180, bound="every glue (amounts in (-2^31, 2^31)) and every n in (-2^31, 2^31): TeX.2021.1240"),
         add_lsd(8), add_lsd(10), add_lsd(16),
-        A("c06_print_scan_every_fraction", "every fraction 0..65535 sp with either sign (integer part 0): 1..5 digits, scans back exactly"),
+        A("c06_print_scan_every_fraction", "every fraction 0..65535 sp with either sign (integer part 0): the digits printed are exactly those of TeX.2021.103 (print_scaled), 1..5 of them, and scan back exactly"),
         A("c06_print_scan_every_integer_part", "every integer part 0..16383 with either sign and fraction in {0, 1, 32768, 65535} sp (the fraction digits depend on the fractional part only, the integer digits on the integer part only)"),
-        A("c06_print_scan_every_value", "every scaled value |s| <= 2^30-1 in one query (the whole print/scan quantifier of the property)", timeout=1200),
+        A("c06_print_scan_every_value", "every scaled value |s| <= 2^30-1 in one query: printed integer part and fraction digits are exactly print_scaled's (TeX.2021.103) and scan back to s (the whole print/scan quantifier of the property)", timeout=1200),
         B("c06_glue_checked_div", (None, "checked_div", "Glue", None), [("g", "Glue"), ("n", "i32")], post_glue_checked_div,
           pre=lambda a: tm.and_(*[tm.gt(glue_fields(a["g"])[k], I(I32_MIN)) for k in (0, 1, 3)]),
           witnesses=[("by zero", lambda a: tm.eq(a["n"], I(0))), ("negative divisor", lambda a: tm.and_(tm.eq(a["n"], I(-2)), tm.eq(glue_fields(a["g"])[1], I(-5))))],
